@@ -331,7 +331,7 @@ fn main() {
                         if k == 0 {
                             for j in 0..sweep {
                                 let m2 = gen_model(&fam, seed.wrapping_mul(104729).wrapping_add((i * sweep + j) as u64), maxn, true);
-                                let nt = r.gen_range(2..=6);
+                                let nt = [1, 1, 2, 3, 4, 6][r.gen_range(0..6)];
                                 let c2 = PCfg { sched: "free".into(), nconstr: nt, nspawn: nt, cut_poll: 0, sseed: r.gen(), dd: ["lel", "fc", "pooled"][r.gen_range(0..3)].into(),
                                                 cache: r.gen_bool(0.5), dom: false, width: [1, 1, 2, 2, 3][r.gen_range(0..5)], ..base.clone() };
                                 jobs.push((m2, c2, "free".into()));
@@ -379,7 +379,8 @@ fn main() {
         if quiet.get(run).copied().unwrap_or(false) {
             let val = if ret["has_value"].as_bool().unwrap() { Some(ret["best_value"].as_i64().unwrap()) } else { None };
             let bad = ret["panicked"].as_bool().unwrap() || ret["watchdog"].as_bool().unwrap() || !ret["is_exact"].as_bool().unwrap() || val != m.opt().map(|o| o as i64)
-                || !m.solution_consistent(&ret);
+                || !m.solution_consistent(&ret)
+                || (ret["has_value"].as_bool().unwrap() && ret["best_ub"] != ret["best_value"]);
             swept += 1;
             if !bad {
                 continue;
